@@ -187,6 +187,8 @@ class NPProxy(types.ModuleType):
         return _np.empty(shape, dtype=dtype, **kw)
 
     def full(self, shape, fill_value, dtype=None, **kw):
+        if fill_value is None:
+            return _np.full(shape, None, dtype=dtype, **kw)
         if _wants_float(dtype) and not isinstance(fill_value, (bool, _np.bool_)):
             a = _np.empty(shape, dtype=object)
             a.fill(S.S(fill_value))
